@@ -49,7 +49,9 @@ class PrefixPart:
         return None
 
 
-_comment = r'#[^\n\r\f]*'
+# Form feeds inside a comment belong to the comment (like in the tokenizer),
+# only trailing ones are separate parts.
+_comment = r'#[^\n\r\f]*(?:\f+[^\n\r\f]+)*'
 _backslash = r'\\\r?\n|\\\r'
 _newline = r'\r?\n|\r'
 _form_feed = r'\f'
